@@ -508,6 +508,9 @@ type ConcOpts struct {
 	Strict bool
 	// Directed: see Sched.Directed.
 	Directed []Seg
+	// Fault is asked at every backend call of participant i (after the scheduler let it run): a non-zero action is
+	// injected instead of the call.
+	Fault func(i int, s Site) Action
 	// OnTxn is called with every participant's transaction before Begin (extra hooks).
 	OnTxn func(i int, t *Txn)
 }
@@ -545,7 +548,13 @@ func (e *Env) RunConcurrent(stores []StoreOpts, progs []TxnProg, schedule []int,
 				if site.After {
 					return Action{}
 				}
-				return inner(site)
+				a := inner(site)
+				if co.Fault != nil {
+					if fa := co.Fault(i, site); fa.Err != nil || fa.False {
+						return fa
+					}
+				}
+				return a
 			})
 		}
 		if !co.FreeRunning {
